@@ -164,19 +164,30 @@ func VerifHarness_C07_out() {
 	r.app.inLogon = true
 	if ndBool("event-is-logout") {
 		verifCase("logout-received")
-		if ndBool("we-initiated") {
+		switch verifConc(ndInt("state-at-logout", 0, 3)) {
+		case 0:
 			r.s.State = logoutState{}
-		} else {
+		case 1:
 			r.s.State = inSession{}
+		case 2:
+			r.s.State = resendState{resendRangeEnd: T + 2}
+		case 3:
+			r.s.State = pendingTimeout{inSession{}}
 		}
-		r.s.fixMsgIn(r.s, r.inbound("5", T))
+		// the Logout's own number: in sequence, behind or ahead of the expected one - the reset options apply regardless
+		S := ndInt("S", 1, 45)
+		r.s.fixMsgIn(r.s, r.inbound("5", S))
 		T1, N1 := r.st.NextTargetMsgSeqNum(), r.st.NextSenderMsgSeqNum()
 		if r.s.ResetOnLogout || r.s.ResetOnDisconnect {
 			verifAssert(T1 == 1 && N1 == 1, "reset-option-counters-back-to-1")
 			msgs, _ := r.st.GetMessages(1, 1)
 			verifAssert(len(msgs) == 0, "reset-option-forgets-messages")
 		} else {
-			verifAssert(T1 == T+1, "no-option-logout-consumes-its-number")
+			if S == T {
+				verifAssert(T1 == T+1, "no-option-logout-consumes-its-number")
+			} else {
+				verifAssert(T1 == T, "no-option-out-of-sequence-logout-consumes-nothing")
+			}
 			verifAssert(N1 == N || N1 == N+1, "no-option-outbound-at-most-the-logout-reply")
 			msgs, _ := r.st.GetMessages(1, 1)
 			verifAssert(len(msgs) == 1, "no-option-messages-kept")
